@@ -49,9 +49,16 @@ func FamilyOddities() []*Conv {
 	add("recursive_func_type_field", "source struct{ F PFXF; N PFXA }", "struct{ F PFXF; N PFXB }", zoo, nil, nil)
 	add("generic_instances_differ", "source PFXBox[PFXA]", "PFXBox[PFXB]", zoo, nil, nil)
 	add("generic_instance_nested", "source map[string]PFXBox[[]PFXA]", "map[string]PFXBox[[]PFXB]", zoo, nil, nil)
+	add("unsafe_pointer_to_pointer", "source struct{ P unsafe.Pointer; Q *unsafe.Pointer }", "struct{ P *unsafe.Pointer; Q *unsafe.Pointer }", "", nil, nil)
+	out[len(out)-1].Imports = []string{`"unsafe"`}
 	add("unsafe_and_complex", "source struct{ P uintptr; C complex128; U [0]int }", "struct{ P uintptr; C complex128; U [0]int }", "", nil, nil)
 	add("array_of_arrays", "source [2][3]PFXA", "[2][3]PFXB", zoo, nil, nil)
 	add("struct_keyed_map_with_array", "source map[struct{ K [2]int }]PFXA", "map[struct{ K [2]int }]PFXB", zoo, nil, nil)
+	// useUnderlyingTypeMethods over defined pointer / func / channel types: the conversion to the underlying type is parenthesized
+	und := "type PFXT struct{ A int }\ntype PFXU struct{ A int }\ntype PFXP *PFXT\ntype PFXQ *PFXU\ntype PFXFn func() int\ntype PFXGn func() int\ntype PFXCh <-chan int\ntype PFXDh <-chan int\nfunc PFXPtrConv(t *PFXT) *PFXU { return nil }\nfunc PFXFnConv(f func() int) func() int {\n\treturn f\n}\nfunc PFXChConv(c <-chan int) <-chan int {\n\treturn c\n}\n"
+	add("underlying_named_pointer", "source struct{ V PFXP }", "struct{ V PFXQ }", und, []string{"useUnderlyingTypeMethods", "extend PFXPtrConv"}, nil)
+	add("underlying_named_func", "source struct{ V PFXFn }", "struct{ V PFXGn }", und, []string{"useUnderlyingTypeMethods", "extend PFXFnConv"}, nil)
+	add("underlying_named_chan", "source struct{ V PFXCh }", "struct{ V PFXDh }", und, []string{"useUnderlyingTypeMethods", "extend PFXChConv"}, nil)
 	add("alias_to_pointer", "source PFXAl", "*PFXOut", io+"type PFXAl = *PFXIn\n", nil, nil)
 	add("pointer_to_interface", "source *interface{ M() }", "*interface{ M() }", "", nil, nil)
 	add("interface_field_with_methods", "source struct{ I interface{ M(x []PFXA, rest ...int) PFXA } }", "struct{ I interface{ M(x []PFXA, rest ...int) PFXA } }", zoo, nil, nil)
@@ -72,6 +79,16 @@ func FamilyOddities() []*Conv {
 	// update methods in corners
 	add("update_pointer_source_whole_source_func", "source *PFXIn, target *PFXOut", "", "type PFXIn struct{ First, Last string }\ntype PFXOut struct {\n\tFull string\n\tFirst string\n}\nfunc PFXFull(in PFXIn) string { return in.First }\n", nil, []string{"update target", "map . Full | PFXFull"})
 	add("update_pointer_source_whole_source_field", "source *PFXIn, target *PFXOut", "", "type PFXIn struct{ First, Last string }\ntype PFXOut struct {\n\tWhole PFXIn\n\tFirst string\n}\n", nil, []string{"update target", "map . Whole"})
+	for i, t := range []string{"*string", "**PFXIn", "*[]PFXIn", "*map[string]PFXIn", "*interface{}", "*PFXNum", "[]PFXIn", "*func() PFXIn", "*[2]PFXIn"} {
+		add(fmt.Sprintf("update_source_not_a_struct_%d", i), "source "+t+", target *PFXOut", "", "type PFXNum int\ntype PFXIn struct{ A int }\ntype PFXOut struct{ A int }\n", nil, []string{"update target"})
+		add(fmt.Sprintf("update_target_not_a_struct_%d", i), "source PFXIn, target "+t, "", "type PFXNum int\ntype PFXIn struct{ A int }\ntype PFXOut struct{ A int }\n", nil, []string{"update target"})
+	}
+	// directive texts that are patterns: anything the regexp syntax allows or rejects ends in a diagnostic or in output
+	for i, pat := range []string{`Conv.*\Q`, `Conv.*To\QString`, `(?i:conv.*)`, `Conv(`, `Conv[`, `Conv\`, `(?P<n>Conv.*)`, `Conv.*|`, `\pL+`, `Conv{2,1}`, `(?U)Conv.*`, `Conv.*)(`} {
+		add(fmt.Sprintf("extend_pattern_%d", i), "source PFXIn", "PFXOut", io+"func PFXConvA(i int) int { return i }\n", []string{"extend " + pat}, nil)
+		add(fmt.Sprintf("enum_exclude_pattern_%d", i), "source PFXIn", "PFXOut", io, []string{"enum:exclude " + pat}, nil)
+		add(fmt.Sprintf("context_regex_%d", i), "source PFXIn", "PFXOut", io, []string{"arg:context:regex " + pat}, nil)
+	}
 	add("update_ignorezero_struct_field_not_comparable", "source PFXIn, target *PFXOut", "", "type PFXN struct{ L []int }\ntype PFXIn struct{ N PFXN }\ntype PFXOut struct{ N PFXN }\n", nil, []string{"update target", "update:ignoreZeroValueField:struct"})
 	add("ignoremissing_inline_struct_map_value", "source map[string]struct{ A int }", "map[string]struct{ B int }", "", []string{"ignoreMissing"}, nil)
 	add("embedded_alias_field_in_unnamed_struct", "source struct{ PFXAlias }", "struct{ PFXAlias }", "type PFXBase struct{ V int }\ntype PFXAlias = PFXBase\n", nil, nil)
